@@ -35,28 +35,31 @@ Print Assumptions C01_commit_forward_only.
    (prev index, prev term) match; a leadership commits a position holding an entry of its own
    term once a majority acknowledged a longer matching log in that term; a node hands position
    j to its state machine on the authority of a leadership t <= its term that committed some
-   i >= j while its own log agrees with that leadership's log through j).  Messages may be
-   delayed, duplicated, reordered or lost.  [snd p] is the history of everything any node ever
+   i >= j while its own log agrees with that leadership's log through j; a node may crash at any
+   time, keeping term and vote, losing any suffix of its log beyond what it acknowledged, and is
+   no candidate any more).  Messages may be delayed, duplicated, reordered or lost; a snapshot
+   install is the follower rule with the empty prefix (the ghost logs are never compacted).  [snd p] is the history of everything any node ever
    handed out: any two hand-outs at the same position, at any two moments, by any two nodes,
    carry the same entry.  Unbounded nodes, terms, log lengths and steps; static voter set [vs]
-   (membership change, snapshots and lost unacknowledged suffixes are outside this theorem and
-   stay with the monitors of the cluster harness). *)
+   (membership change is outside this theorem and stays with the monitors of the cluster harness). *)
 Theorem C01_state_machine_safety_protocol : forall vs p m1 m2 j x y,
   Safety.areach vs p -> In (m1, j, x) (snd p) -> In (m2, j, y) (snd p) -> x = y.
 Proof. exact Safety.state_machine_safety. Qed.
 Print Assumptions C01_state_machine_safety_protocol.
 
 (* never replaced, reordered or dropped: what a node may treat as committed it may still treat
-   as committed, with the same value, after any further step of the network *)
+   as committed, with the same value, after any further step of the network, as long as it still
+   holds that position (a crash may cost it a not yet acknowledged suffix of its log; what it had
+   handed to its state machine stays the committed value by C01_state_machine_safety_protocol) *)
 Theorem C01_committed_never_replaced : forall vs s s' m j t,
   Safety.SInv vs s -> Safety.sstep vs s s' -> Safety.can_learn s m j t ->
-  Safety.can_learn s' m j t /\
+  ((S j <= length (Safety.nlog s' m))%nat -> Safety.can_learn s' m j t) /\
   (forall x, Safety.cval s j x -> Safety.cval s' j x) /\
   (forall x y, Safety.cval s' j x -> Safety.cval s' j y -> x = y).
 Proof.
-  intros vs s s' m j t I S CL. split; [exact (Safety.can_learn_stable vs s s' m j t I S CL)|]. split.
-  - intros x. exact (Safety.cval_stable vs s s' j x I S).
-  - intros x y. exact (Safety.cval_unique vs s' j x y (Safety.sinv_step vs s s' I S)).
+  intros vs s s' m j t I S0 CL. split; [exact (Safety.can_learn_stable vs s s' m j t I S0 CL)|]. split.
+  - intros x. exact (Safety.cval_stable vs s s' j x I S0).
+  - intros x y. exact (Safety.cval_unique vs s' j x y (Safety.sinv_step vs s s' I S0)).
 Qed.
 Print Assumptions C01_committed_never_replaced.
 
